@@ -196,7 +196,12 @@ func (u *Unit) callFunction(fr *Frame, st *State, fn *ssa.Function, binds, args 
 		root = root.Parent()
 	}
 	if root.Pkg != u.eng.pkg {
-		return u.intrinsic(fr, st, fn, args, where)
+		// inside the reference store model (internal/natsmock) a call to another function of the model is a package
+		// call: a helper without a contract is inlined there as it is in the library itself
+		inModel := func(p *ssa.Package) bool { return p != nil && strings.HasSuffix(p.Pkg.Path(), "internal/natsmock") }
+		if !(inModel(root.Pkg) && fr != nil && fr.fn != nil && inModel(fr.fn.Pkg) && fn.Blocks != nil) {
+			return u.intrinsic(fr, st, fn, args, where)
+		}
 	}
 	key := u.eng.funcKey(fn)
 	if fc := u.eng.cs.Funcs[key]; fc != nil && !fc.Flags["inline"] {
